@@ -131,8 +131,14 @@ def real_worker(case):
     """never raises (see c05.real_worker)"""
     try:
         return _real_worker(case)
+    except Exception:  # noqa: BLE001  every call into mxlpy is guarded inside: this is the environment; retry once
+        pass
+    try:
+        return _real_worker(case)
     except BaseException as e:  # noqa: BLE001
-        return {"build": {"err": ["worker:" + type(e).__name__]}, "evals": []}
+        import traceback
+
+        return {"build": {"err": ["worker:" + type(e).__name__, traceback.format_exc()[-600:]]}, "evals": []}
 
 
 def _real_worker(case):
